@@ -51,6 +51,25 @@ type c04Case struct {
 	Require     []string `json:"require,omitempty"`
 	// SkipUnpack leaves out the UnpackSquashed comparison (exhaustive sweep only).
 	SkipUnpack bool `json:"skip_unpack,omitempty"`
+	// SizeLimitSlack > 0 loads the image with a per-file byte limit of (largest file size +
+	// SizeLimitSlack): every file is below the limit, so the limit must change nothing.
+	SizeLimitSlack int `json:"size_limit_slack,omitempty"`
+}
+
+// maxFileBytes returns the per-file byte limit of the case (0 = default).
+func (cs c04Case) maxFileBytes() int64 {
+	if cs.SizeLimitSlack <= 0 {
+		return 0
+	}
+	largest := 0
+	for _, l := range cs.Image.Layers {
+		for _, e := range l.Entries {
+			if len(e.Content) > largest {
+				largest = len(e.Content)
+			}
+		}
+	}
+	return int64(largest + cs.SizeLimitSlack)
 }
 
 const c04Depth = image.DefaultMaxSymlinkDepth
@@ -768,7 +787,7 @@ func propC04(cs c04Case) (ev.Outcome, error) {
 			reqSet[r] = true
 		}
 	}
-	ld, err := loadImage(cs.Image, requirer, c04Depth)
+	ld, err := loadImageLimit(cs.Image, requirer, c04Depth, cs.maxFileBytes())
 	defer ld.Close()
 	if err != nil {
 		return out, fmt.Errorf("FromV1Image fails on a well-formed image: %w", err)
@@ -1156,6 +1175,11 @@ func genC04(col *ev.Collector) func(t *rapid.T) c04Case {
 				col.Excluded(cl)
 				cs.UseRequirer, cs.Require = false, nil
 			}
+		}
+		// size-limit configuration: a per-file byte limit just above the largest file must
+		// change nothing (no file reaches it)
+		if rapid.IntRange(0, 2).Draw(t, "size_limit") == 0 {
+			cs.SizeLimitSlack = rapid.IntRange(1, 8).Draw(t, "size_limit_slack")
 		}
 		return cs
 	}
